@@ -133,6 +133,19 @@ class SizeConstraintList(list[SizeConstraint]):
         super().__init__(*args, **kwargs)
 
     def bytes_parsed(self, path, size, anticipate_only=False):
+        if not anticipate_only:
+            live = [c for c in self if not c.is_obsolete and c.size_max is not None]
+            for index, violated in enumerate(live):
+                if violated.size_already + size > violated.size_max:
+                    # only the rest of the (outermost) violated region is consumed: the enclosing regions count
+                    # exactly these bytes, the regions which were opened inside are abandoned
+                    skipped = max(violated.size_max - violated.size_already, 0)
+                    for enclosing in live[:index]:
+                        enclosing.size_already += skipped
+                    for nested in live[index + 1 :]:
+                        nested.is_obsolete = True
+                    yield from violated.bytes_parsed(path, size)
+
         # TODO always in order from deepest to highest
         for constraint in self.copy():
             try:
